@@ -1,13 +1,19 @@
 import IncrVerif.Proofs.Heights
 /-!
-# LeakF1 — the engine does not read or write the program's node handles: the simulation calculus
+# LeakF1 — the engine does not write the program's node handles: the frame calculus
 
-`erase s` replaces `s.handles` (the ownership component's list of node handles held by the program) by a list `H` (`Sim` quantifies over it).  `Sim x`: a run of `x` that returns leaves `handles` unchanged.  Port of the calculus of `Proofs/NecRel1.lean`.
+`Sim x`: a run of `x` that returns leaves `State.handles` (the ownership component's list of node handles held by
+the program) unchanged.  The calculus (bind, get, modify, loops, …) and the tactic `sim` push this through the
+monadic structure of the engine functions (port of the calculus of `Proofs/NecRel1.lean`; `LeakF2…4` are the
+ladder).  Also here: `erase H s = { s with handles := H }` and the pure readers that do not read `handles`
+(`value_erase`, …), used by `LeakF5`.
+NOTE: the two-state version ("the run from `erase H s` returns the same in `erase H s'`") is FALSE for arbitrary
+programs: `memoCall`, `perKeyDriver` and the weak-map sweep of `stabiliseEnd` read `State.isAlive`/`aliveSet`.
 -/
 namespace IncrVerif.Proofs.LeakF
 open IncrVerif.Engine IncrVerif.Proofs
 
-/-- forget the program's node handles: replace them by the list `H` -/
+/-- replace the program's node handles by the list `H` -/
 def erase (H : List Nat) (s : State) : State := { s with handles := H }
 
 theorem erase_debug (H : List Nat) (s : State) : (erase H s).cfg.debug = s.cfg.debug := rfl
